@@ -59,8 +59,9 @@ static std::string step(const std::string &line) {
         size_t ret = 0;
         std::unique_ptr<Block> dst = build(n, &ret);
         std::ostringstream o;
-        o << "r=" << ret << " b=" << hexz(dst->p, n.cap);
-        if (ret > n.cap) return o.str() + " ret-exceeds-len";
+        if (ret > n.cap) { o << "r=" << ret << " ret-exceeds-len"; return o.str(); }
+        // observable: the whole block after a failed call, the `ret` bytes written after a successful one
+        o << "r=" << ret << " b=" << (ret == 0 ? hexz(dst->p, n.cap) : hex(dst->p, ret));
         if (ret >= 16) {
             o << readers(dst->p, ret);
             if (n.cap >= ret + 4) o << " nz=" << rtosc_bundle_elements(dst->c(), n.cap);
@@ -86,8 +87,8 @@ static std::string step(const std::string &line) {
             first = false;
         }
         if (first) o << "-";
-        o << " b=" << hexz(dst->p, n.cap);
         if (len > n.cap) return o.str() + " ret-exceeds-len";
+        o << " b=" << (len == 0 ? hexz(dst->p, n.cap) : hex(dst->p, len));
         if (len >= 16) o << readers(dst->p, len);
         return o.str();
     }
